@@ -191,6 +191,17 @@ def check_call_roles(ctx, rule, construct, where, call, iscsd, fam, exp, only=No
             if isinstance(a, PV): ctx.unknown(rule, c, f"conditional value {a!r}"[:200], where); continue
             ctx.compare(rule, c, to_x(a), want, where)
         elif role == "w":
+            if isinstance(a, PV):
+                # the window is built differently on different branches (e.g. by length): every branch must be the reference window
+                worst = (HOLDS, "")
+                for path, leaf in pv_leaves(a):
+                    st, why = same_arr(leaf, want)
+                    if st == UNKNOWN and (is_opaque(leaf) or as_arr(leaf) is None) and not isinstance(leaf, Mismatch): st, why = UNKNOWN, f"window on [{path_text(path)}] not recognised: {leaf!r}"[:200]
+                    elif st != HOLDS: st, why = st, f"on the branch [{path_text(path)}]: {why}"
+                    if st == VIOLATED: worst = (st, why); break
+                    if st != HOLDS and worst[0] == HOLDS: worst = (st, why)
+                ctx.ob(rule, c, worst[0], worst[1], where)
+                continue
             st, why = same_arr(a, want)
             ctx.ob(rule, c, st, why, where)
         elif role == "Q":
@@ -483,7 +494,8 @@ def check_cache_keys(ctx, rule="R5-cache-key", about=None):
             own_nodes = set(id(x) for x in _own_nodes(fn))
             for t, value, stn in stores:
                 if id(stn) not in own_nodes: continue
-                if isinstance(t.slice, (ast.Constant, ast.JoinedStr, ast.Slice)): continue
+                if isinstance(t.slice, (ast.JoinedStr, ast.Slice)): continue
+                if isinstance(t.slice, ast.Constant) and not (isinstance(t.value, ast.Attribute) and "cache" in t.value.attr.lower()): continue
                 cname = ast.unparse(t.value)
                 # what kind of dictionary is it?
                 scope = None
